@@ -315,14 +315,29 @@ package cache
 //@   modifies sync.rwheld
 //@   opt trusted_frame
 
+// resolversOf(sc): the resolvers a sub-cache works with (what its resolvers callback answers: a deterministic read)
+//@ spec func resolversOf(sc *SubCache) entity.Resolvers
 //@ func SubCache.resolvers
 //@   modifies nothing
+//@   defines [deterministic] result == resolversOf(recv)
 //@ func (*RepoCacheBug).Query
-//@   props C18
+//@   props C18 C12
 //@   opt locks
-//@   stable all(RepoCacheBug.SubCache)
+//@   opt assume_pre=(*Matcher).Match
+//@   stable all(RepoCacheBug.SubCache), all(query.Query.OrderBy), all(query.Query.OrderDirection)
 //@   requires [not-held@locks] c.SubCache != nil && sync.rwheld[&c.SubCache.mu] == 0
 //@   ensures [lock-balanced] forall m *sync.RWMutex :: { sync.rwheld[m] } sync.rwheld[m] == old(sync.rwheld[m])
+// (C12) the requested sort key and direction choose the comparator (the three comparators are verified above)
+// (C12) what is selected: every excerpt kept satisfies the matcher, and every excerpt looked at that satisfies it is kept
+//@   loop 2
+//@     invariant [only-matches] (filtered == nil || fresh(filtered)) && (forall k int :: { filtered[k] } 0 <= k && k < len(filtered) ==> matchOf(matcher, filtered[k], resolversOf(c.SubCache)))
+//@     invariant [every-match-kept] forall id entity.Id :: { iterseen[id] } iterseen[id] && matchOf(matcher, foundBySearch[id], resolversOf(c.SubCache)) ==> (exists k int :: { filtered[k] } 0 <= k && k < len(filtered) && filtered[k] == foundBySearch[id])
+//@   check [ids-of-the-selected-in-their-sorted-order] err == nil && q != nil ==> len(result) == len(filtered) && (forall k int :: { result[k] } 0 <= k && k < len(result) ==> result[k] == filtered[k].id)
+//@   loop 3
+//@     invariant len(result) == len(filtered) && fresh(result)
+//@     invariant forall k int :: { result[k] } 0 <= k && k <= rangeindex ==> result[k] == filtered[k].id
+//@   assert at `sort.Sort(sorter)` [sorted-by-the-requested-key] q.OrderDirection == query.OrderAscending ==> (q.OrderBy == query.OrderById ==> typeof(sorter) == type[BugsById]) && (q.OrderBy == query.OrderByCreation ==> typeof(sorter) == type[BugsByCreationTime]) && (q.OrderBy == query.OrderByEdit ==> typeof(sorter) == type[BugsByEditTime])
+//@   assert at `sorter = sort.Reverse(sorter)` [reversed-only-for-descending] q.OrderDirection == query.OrderDescending
 
 //@ func (*RepoCacheIdentity).finishIdentity
 //@   props C18
@@ -493,11 +508,16 @@ package cache
 //@ ghost var repoLocked bool
 //@ ghost var closeCalls int
 //@ ghost var lastCloseOK bool
+// (the three ghost facts are definitions of the ghost state; the body is verified for what gives the lock back: a
+// close that reports success has removed the lock file - that file and nothing else - as its last step)
 //@ func (*RepoCache).Close
-//@   trusted
-//@   modifies repoWrites, repoLocked, closeCalls, lastCloseOK
-//@   ensures [unlocked] result == nil ==> !repoLocked
-//@   ensures [counted]  closeCalls == old(closeCalls) + 1 && lastCloseOK == (result == nil)
+//@   props C19
+//@   modifies repoWrites, repoLocked, closeCalls, lastCloseOK, repository.storageRemoves, repository.lastRemoved, repository.lastRemoveOK
+//@   opt trusted_frame
+//@   stable repository.storageRemoves, repository.lastRemoved, repository.lastRemoveOK
+//@   defines [unlocked] result == nil ==> !repoLocked
+//@   defines [counted]  closeCalls == old(closeCalls) + 1 && lastCloseOK == (result == nil)
+//@   ensures [success-means-the-lock-file-is-gone] result == nil ==> repository.storageRemoves == old(repository.storageRemoves) + 1 && repository.lastRemoved == lockfile && repository.lastRemoveOK
 //@ func NewRepoCache
 //@   trusted
 //@   modifies repoLocked, repoWrites
@@ -715,7 +735,7 @@ package cache
 //@ func repoIsAvailable
 //@   props C19
 //@   requires repo != nil
-//@   modifies process.aliveChecks, process.lastAlivePid, process.lastAlive, repository.storageRemoves, repository.lastRemoved, lastAvailable
+//@   modifies process.aliveChecks, process.lastAlivePid, process.lastAlive, repository.storageRemoves, repository.lastRemoved, repository.lastRemoveOK, lastAvailable
 //@   opt trusted_frame
 //@   ensures [holder-alive-refused]   process.aliveChecks > old(process.aliveChecks) && process.lastAlive ==> result != nil && repository.storageRemoves == old(repository.storageRemoves)
 //@   ensures [removed-only-when-dead] repository.storageRemoves > old(repository.storageRemoves) ==> repository.storageRemoves == old(repository.storageRemoves) + 1 && repository.lastRemoved == lockfile && process.aliveChecks == old(process.aliveChecks) + 1 && !process.lastAlive
@@ -857,3 +877,7 @@ package cache
 //@   loop 1
 //@     invariant forall k int :: { recvat(events, k) } 0 <= k && k < recvcount(events) ==> recvat(events, k).Err == nil
 //@     invariant sentcount(out) == recvcount(events)
+
+//@ func (*BugExcerpt).Id
+//@   modifies nothing
+//@   ensures result == b.id
